@@ -107,9 +107,12 @@ class Extractor:
         self.std = std
         self.tag = tag
         self.items = []  # (name, ctype, expr, pre)
+        self.groups = {}
 
-    def add(self, name, ctype, expr, pre=""):
+    def add(self, name, ctype, expr, pre="", group=None):
+        """group: items of one group are retried together when their batch fails to compile."""
         self.items.append((name, ctype, expr, pre))
+        self.groups[name] = group if group is not None else name
 
     def _text(self, items):
         lines = [self.prelude]
@@ -144,14 +147,23 @@ class Extractor:
             vals, se = self._run(ch, "b%d" % i)
             res = {}
             if vals is None:
-                # bisect: retry individually
-                for j, it in enumerate(ch):
-                    v1, se1 = self._run([it], "b%d_%d" % (i, j))
-                    if v1 is None:
-                        errs = [d for d in cxx.parse_clang(se1)]
-                        res[it[0]] = ("error", errs[0].where() + ": " + errs[0].msg if errs else se1[-300:], None)
-                    else:
-                        res[it[0]] = v1.get(it[0], ("missing", None, None))
+                # retry group by group (a group = the items that belong to one instance)
+                order = []
+                bygroup = {}
+                for it in ch:
+                    g = self.groups[it[0]]
+                    if g not in bygroup:
+                        bygroup[g] = []
+                        order.append(g)
+                    bygroup[g].append(it)
+                for j, g in enumerate(order):
+                    v1, se1 = self._run(bygroup[g], "b%d_%d" % (i, j))
+                    for it in bygroup[g]:
+                        if v1 is None:
+                            errs = [d for d in cxx.parse_clang(se1)]
+                            res[it[0]] = ("error", errs[0].where() + ": " + errs[0].msg if errs else se1[-300:], None)
+                        else:
+                            res[it[0]] = v1.get(it[0], ("missing", None, None))
             else:
                 for it in ch:
                     res[it[0]] = vals.get(it[0], ("missing", None, None))
